@@ -1,6 +1,8 @@
 package main
 
 import (
+	"bufio"
+	"bytes"
 	"fmt"
 	"io"
 	"strings"
@@ -170,6 +172,16 @@ func c06Chunks(pat []int64, s []byte) [][]byte {
 
 var c06Injected = fmt.Errorf("c06: injected I/O error")
 
+// c06TempError is an injected error of the net-timeout / EAGAIN kind: it implements
+// Temporary() and Timeout().  Script responses with fail = 2 return it.
+type c06TempError struct{}
+
+func (c06TempError) Error() string   { return "c06: injected temporary I/O error" }
+func (c06TempError) Temporary() bool { return true }
+func (c06TempError) Timeout() bool   { return true }
+
+var c06InjectedTemp error = c06TempError{}
+
 func c06NewReader(s []byte, pat []int64, tkind int, withLast bool) *c06Reader {
 	r := &c06Reader{chunks: c06Chunks(pat, append([]byte{}, s...)), terr: io.EOF, withLast: withLast}
 	if tkind != 0 {
@@ -195,7 +207,7 @@ func c06ErrClass(err error) int {
 		return 3
 	case c == pbcmpl.ErrInvalidBodySize:
 		return 4
-	case c == c06Injected:
+	case c == c06Injected || c == c06InjectedTemp:
 		return 5
 	case c == c06ErrDecode || strings.Contains(c.Error(), "c06: body rejected"):
 		return 6
@@ -229,6 +241,9 @@ func (w *c06Writer) Write(p []byte) (int, error) {
 	}
 	w.out = append(w.out, p[:n]...)
 	if e.L[1].Bool() {
+		if e.L[1].Z.IsInt64() && e.L[1].I64() == 2 {
+			return n, c06InjectedTemp
+		}
 		return n, c06Injected
 	}
 	return n, nil
@@ -295,6 +310,50 @@ func c06Walk(r *c06Reader, total int) (string, string) {
 	return L(steps...), Bytes(r.left())
 }
 
+// c06RLE renders a byte string in run-length form [[count, byte], ...] with maximal runs.
+func c06RLE(b []byte) string {
+	var xs []string
+	for i := 0; i < len(b); {
+		j := i
+		for j < len(b) && b[j] == b[i] {
+			j++
+		}
+		xs = append(xs, L(Int(j-i), Int(int(b[i]))))
+		i = j
+	}
+	return L(xs...)
+}
+
+// c06WalkHeld: c06Walk over any reader (here: a *bufio.Reader) that KEEPS every Header it was
+// given and reads its fields only after the whole stream was walked.
+func c06WalkHeld(r io.Reader, total int) (string, string) {
+	var steps, held []string
+	var hs []pbcmpl.Header
+	for i := 0; i <= total/32+2; i++ {
+		n, h, err := pbcmpl.ReadHeader(r)
+		if err != nil || h == nil {
+			steps = append(steps, L(I(n), Int(c06ErrClass(err)), Str(""), "0", "0", Bytes(nil), "0"))
+			break
+		}
+		hs = append(hs, h)
+		ver, hsz, bs := h.GetVersion(), h.GetHeaderSize(), h.GetBodySize()
+		if hsz != 32 || bs < 0 || bs > 65536 {
+			steps = append(steps, L(I(n), "0", Str(ver), I(hsz), I(bs), Bytes(nil), "1"))
+			break
+		}
+		b := make([]byte, bs)
+		nb, err := io.ReadFull(r, b)
+		steps = append(steps, L(I(n), Int(c06ErrClass(err)), Str(ver), I(hsz), I(bs), Bytes(b[:nb]), "0"))
+		if err != nil {
+			break
+		}
+	}
+	for _, h := range hs {
+		held = append(held, L(Str(h.GetVersion()), I(h.GetHeaderSize()), I(h.GetBodySize())))
+	}
+	return L(steps...), L(held...)
+}
+
 // c06InsertEmpties inserts an empty chunk before the chunk of index p mod len(cs), for each p in
 // turn (Model: Run/PbcmplWalkOps.v insert_empties); positions are non-negative.
 func c06InsertEmpties(pos []int64, cs [][]byte) [][]byte {
@@ -309,6 +368,77 @@ func c06InsertEmpties(pos []int64, cs [][]byte) [][]byte {
 }
 
 func init() {
+	// [kind, [[[msg...], chunk pattern, eof with last chunk, cut], ...]]: connections one after the other in this process
+	Exec["pbcmpl.Roundtrip/session"] = func(a []V) string {
+		kind := a[0].Int()
+		var outs []string
+		for _, c := range a[1].L {
+			w := &c06Writer{}
+			for _, mv := range c.L[0].L {
+				pbcmpl.Marshal(w, c06Msg(kind, mv))
+			}
+			s := w.out
+			if c.L[3].Z.Sign() >= 0 && c.L[3].Z.IsInt64() && c.L[3].I64() < int64(len(s)) {
+				s = s[:c.L[3].I64()]
+			}
+			r := c06NewReader(s, c.L[1].I64s(), 0, c.L[2].Bool())
+			steps, left := c06RunStream(kind, r, len(s))
+			outs = append(outs, L(steps, left))
+		}
+		return L(outs...)
+	}
+	// [kind, [msg...], chunk pattern, bufio size]
+	Exec["pbcmpl.Walk/bufio"] = func(a []V) string {
+		kind := a[0].Int()
+		w := &c06Writer{}
+		for _, mv := range a[1].L {
+			pbcmpl.Marshal(w, c06Msg(kind, mv))
+		}
+		r := c06NewReader(w.out, a[2].I64s(), 0, false)
+		steps, held := c06WalkHeld(bufio.NewReaderSize(r, a[3].Int()), len(w.out))
+		return L(steps, held)
+	}
+	// [kind, [[hasver, ver, count, byte]...], chunk pattern, eof with the last chunk]
+	Exec["pbcmpl.Roundtrip/big"] = func(a []V) string {
+		kind := a[0].Int()
+		w := &c06Writer{}
+		var per []string
+		for _, mv := range a[1].L {
+			payload := bytes.Repeat([]byte{byte(mv.L[3].Int())}, mv.L[2].Int())
+			var msg proto.Message
+			hasver, ver := mv.L[0].Bool(), mv.L[1].Str()
+			if kind == 1 {
+				bv := &wrappers.BytesValue{Value: payload}
+				msg = bv
+				if hasver {
+					msg = &c06BytesV{bv, ver}
+				}
+			} else {
+				rw := c06Raw{p: payload}
+				msg = &rw
+				if hasver {
+					msg = &c06RawV{rw, ver}
+				}
+			}
+			n, err := pbcmpl.Marshal(w, msg)
+			per = append(per, L(I(n), Int(c06ErrClass(err)), Int(pbcmpl.Size(msg)), Int(pbcmpl.HeaderSize(msg))))
+		}
+		r := c06NewReader(w.out, a[2].I64s(), 0, a[3].Bool())
+		var steps []string
+		for i := 0; i <= len(w.out)/32+2; i++ {
+			msg := c06Blank(kind)
+			n, ver, err := pbcmpl.Unmarshal(r, msg)
+			var payload []byte
+			if err == nil {
+				payload = c06Payload(msg)
+			}
+			steps = append(steps, L(I(n), Str(ver), Int(c06ErrClass(err)), c06RLE(payload), Int(r.consumed)))
+			if err != nil {
+				break
+			}
+		}
+		return L(c06RLE(w.out), L(per...), L(steps...), c06RLE(r.left()))
+	}
 	// [kind, [msg...], chunk pattern, eof with the last chunk, positions of empty chunks]
 	Exec["pbcmpl.Roundtrip/empties"] = func(a []V) string {
 		kind := a[0].Int()
@@ -571,6 +701,106 @@ func genC06(g *Gen) {
 		}
 		roundtrip(kind, msgs, lens, vlens, c06Pattern(g.R), g.R.Intn(3) == 0, fmt.Sprintf("rand-frames%d", nf))
 	}
+	// (7) histories: a dropped connection (stream cut, clean EOF) followed by good ones in the same process
+	connText := func(msgs []string, pat []int64, wl bool, cut int) string {
+		return L(L(msgs...), I64s(pat), B(wl), Int(cut))
+	}
+	for kind := 0; kind <= 1; kind++ {
+		for _, bl := range []int{1, 2, 12, 33, 200, 600} {
+			m := c06MsgText(true, c06Ver(g.R, g.R.Range(0, 16), 0), c06Payloadgen(g.R, bl))
+			good := c06MsgText(g.R.Bool(), c06Ver(g.R, g.R.Range(1, 16), 0), c06Payloadgen(g.R, g.R.Range(1, 40)))
+			elen := 32 + bl // raw; BytesValue adds 2..3 bytes
+			for _, cut := range []int{0, 1, 31, 32, 33, 32 + (bl+1)/2, elen - 1, elen} {
+				for _, pat := range [][]int64{nil, {1}, {7}} {
+					g.Stat("session-drop-then-good")
+					g.Do("pbcmpl.Roundtrip/session", L(Int(kind), L(
+						connText([]string{m}, pat, false, cut),
+						connText([]string{good, m}, pat, g.R.Bool(), -1),
+						connText([]string{m, good}, nil, false, cut),
+						connText([]string{good}, pat, false, -1))),
+						fmt.Sprintf("sess/k%d/b%s/cut%d/%s", kind, c06LenClass(bl), cut, c06PatClass(pat)))
+				}
+			}
+		}
+	}
+	n = g.N(150, 4000)
+	for i := 0; i < n; i++ {
+		kind := g.R.Intn(2)
+		nc := g.R.Range(2, 5)
+		var conns []string
+		for c := 0; c < nc; c++ {
+			var msgs []string
+			tot := 0
+			for f, nf := 0, g.R.Range(1, 3); f < nf; f++ {
+				bl := g.R.Pick(1, 2, 31, 33, g.R.Range(1, 120))
+				tot += 32 + bl
+				msgs = append(msgs, c06MsgText(g.R.Intn(3) != 0, c06Ver(g.R, g.R.Range(0, 16), g.R.Intn(3)), c06Payloadgen(g.R, bl)))
+			}
+			cut := -1
+			if g.R.Intn(2) == 0 {
+				cut = g.R.Intn(tot + 1)
+			}
+			conns = append(conns, connText(msgs, c06Pattern(g.R), g.R.Intn(3) == 0, cut))
+		}
+		g.Stat("session-random")
+		g.Do("pbcmpl.Roundtrip/session", L(Int(kind), L(conns...)), fmt.Sprintf("sess/k%d/rand%d", kind, nc))
+	}
+	// Marshal histories in one process: a version that is a proper prefix of the previous one, equal body lengths
+	for kind := 0; kind <= 1; kind++ {
+		for _, pr := range [][2]string{{"1.0.12", "1.0.1"}, {"1.0.1", "1.0.12"}, {"ab", ""}, {"0123456789abcdef", "0123456789abcde"}, {"2.0", "2"}} {
+			for _, bl := range []int{0, 3, 40} {
+				p1, p2 := c06Payloadgen(g.R, bl), c06Payloadgen(g.R, bl)
+				m1, m2 := c06MsgText(true, pr[0], p1), c06MsgText(true, pr[1], p2)
+				g.Stat("version-prefix-history")
+				g.Do("pbcmpl.Roundtrip", L(Int(kind), L(m1, m2, m1, c06MsgText(false, "", p2)), I64s(nil), B(false)), fmt.Sprintf("rt/k%d/prefix/%s/b%d", kind, pr[1], bl))
+			}
+		}
+	}
+
+	// (8) a *bufio.Reader (small buffers: refills while headers are held) between the chunk reader and ReadHeader
+	for kind := 0; kind <= 1; kind++ {
+		for _, bsz := range []int{16, 32, 33, 48, 64, 100, 4096} {
+			for _, pat := range [][]int64{nil, {1}, {5}, {40}} {
+				var msgs []string
+				for f, nf := 0, g.R.Range(3, 6); f < nf; f++ {
+					msgs = append(msgs, c06MsgText(g.R.Intn(4) != 0, c06Ver(g.R, g.R.Range(1, 16), g.R.Intn(3)), c06Payloadgen(g.R, g.R.Pick(0, 1, 7, 31, 32, 33, 100))))
+				}
+				g.Stat("walk-bufio")
+				g.Do("pbcmpl.Walk/bufio", L(Int(kind), L(msgs...), I64s(pat), Int(bsz)), fmt.Sprintf("wbuf/k%d/z%d/%s", kind, bsz, c06PatClass(pat)))
+			}
+		}
+	}
+	n = g.N(150, 4000)
+	for i := 0; i < n; i++ {
+		kind := g.R.Intn(2)
+		var msgs []string
+		for f, nf := 0, g.R.Range(1, 6); f < nf; f++ {
+			msgs = append(msgs, c06MsgText(g.R.Intn(4) != 0, c06Ver(g.R, g.R.Range(0, 16), g.R.Intn(3)), c06Payloadgen(g.R, g.R.Pick(0, 1, 31, 33, g.R.Range(0, 300)))))
+		}
+		bsz := g.R.Pick(16, 32, 40, 64, 128, 512, 4096)
+		g.Stat("walk-bufio-random")
+		g.Do("pbcmpl.Walk/bufio", L(Int(kind), L(msgs...), I64s(c06Pattern(g.R)), Int(bsz)), fmt.Sprintf("wbuf/k%d/z%d/rand", kind, bsz))
+	}
+
+	// (9) bodies above 1 MiB (run-length arguments), followed by more frames
+	bigm := func(hasver bool, ver string, count int, b byte) string {
+		return L(B(hasver), Str(ver), Int(count), Int(int(b)))
+	}
+	for kind := 0; kind <= 1; kind++ {
+		for ci, count := range []int{1<<20 - 1, 1 << 20, 1<<20 + 1, 1<<20 + 1000, 2<<20 + 17} {
+			for pi, pat := range [][]int64{nil, {65536}, {4093}} {
+				if !g.Thorough && (ci+pi+kind)%3 != 0 && count != 1<<20+1000 {
+					continue
+				}
+				small1 := bigm(true, "s.1", g.R.Range(0, 9), 'x')
+				small2 := bigm(false, "", g.R.Range(1, 40), 'y')
+				g.Stat("big-body")
+				g.Do("pbcmpl.Roundtrip/big", L(Int(kind), L(bigm(true, "big", count, 'a'), small1, small2), I64s(pat), B(pi == 1)), fmt.Sprintf("big/k%d/c%d/%s/first", kind, count, c06PatClass(pat)))
+				g.Do("pbcmpl.Roundtrip/big", L(Int(kind), L(small2, bigm(false, "", count, 0), bigm(true, "v", count/2, 'b'), small1), I64s(pat), B(false)), fmt.Sprintf("big/k%d/c%d/%s/middle", kind, count, c06PatClass(pat)))
+			}
+		}
+	}
+
 	// (6) widening: readers that return (0, nil) between chunks: empty chunks at the start, at frame and
 	// header/body boundaries (pattern {32, body}) and at random places
 	empties := func(kind int, msgs []string, pat []int64, wl bool, pos []int64, bucket string) {
